@@ -39,7 +39,8 @@ def required(tier):
     return ["post:parse_gaf_line", "cmd:view_format", "cmd:view_node", "cmd:view_node_format", "cmd:view_region",
             "cmd:realign", "records_judged", "class:negative_int", "class:float_special", "class:Z_punct",
             "class:B_array", "class:H", "class:A", "class:repeated_tag", "class:no_cigar", "class:ds",
-            "class:name_with_space", "cmd:realign_passthrough", "cmd:realign_passthrough_no_cigar"]
+            "class:name_with_space", "cmd:realign_passthrough", "cmd:realign_passthrough_no_cigar",
+            "record_longer_than_64KiB"]
 
 
 def norm_fields(fields):
@@ -148,6 +149,10 @@ def run_case(ctx, rng, index, casedir):
                                    repeats=True)
         if i == 1 and len(fields) >= 1:
             fields.append(fields[0].split(":", 2)[0] + ":i:7") if not fields[0].startswith("cg") else None
+        if i >= 2 and rng.random() < 0.01:
+            # an ultra-long record (a CIGAR-sized field of more than 64 KiB) with ordinary fields after it
+            fields.insert(rng.randint(0, len(fields)), "zu:Z:" + "7=1X" * rng.randint(17000, 20000))
+            sit["record_longer_than_64KiB"] += 1
         recs.append("\t".join(r.line.split("\t")[:12] + fields))
     for l in recs:
         classes_of(l, sit)
